@@ -7,6 +7,8 @@
 //                                   / * \n a " é whose first min(L,2) symbols are the
 //                                   base-6 digits of P, in lexicographic order
 //   preprocess sweep L P digest     same space, one line "digest <count> <ok> <err> <changed> <hash>"
+//   preprocess sweep L P full|digest c,c,c,...   the same over the given alphabet (decimal
+//                                   scalar values, K symbols, prefix digits in base K)
 //
 // result: "ok c c c" (scalars of the output text) | "err <start> <end>" (byte
 // range of the primary label of the report) | "panic".
@@ -56,20 +58,21 @@ fn mix(h: u64, bytes: &[u8]) -> u64 {
     h
 }
 
-fn sweep(len: usize, prefix: usize, digest: bool) {
+fn sweep(len: usize, prefix: usize, digest: bool, alphabet: &[char]) {
+    let k_sym = alphabet.len();
     let stdout = std::io::stdout();
     let mut out = std::io::BufWriter::new(stdout.lock());
     let fixed = len.min(2);
     let mut idx = vec![0usize; len];
     if fixed == 2 {
-        idx[0] = prefix / 6;
-        idx[1] = prefix % 6;
+        idx[0] = prefix / k_sym;
+        idx[1] = prefix % k_sym;
     } else if fixed == 1 {
-        idx[0] = prefix % 6;
+        idx[0] = prefix % k_sym;
     }
     let (mut count, mut n_ok, mut n_err, mut n_changed, mut h) = (0u64, 0u64, 0u64, 0u64, 14695981039346656037u64 & 0x3fff_ffff_ffff_ffff);
     loop {
-        let src: String = idx.iter().map(|&i| ALPHABET[i]).collect();
+        let src: String = idx.iter().map(|&i| alphabet[i]).collect();
         let res = run_one(&src);
         let line = format!("{} = {}", show_scalars(src.chars()), res);
         if digest {
@@ -98,7 +101,7 @@ fn sweep(len: usize, prefix: usize, digest: bool) {
                 return;
             }
             k -= 1;
-            if idx[k] + 1 < 6 {
+            if idx[k] + 1 < k_sym {
                 idx[k] += 1;
                 break;
             }
@@ -111,7 +114,11 @@ fn main() {
     verif_harness::silence_panics();
     let args: Vec<String> = std::env::args().collect();
     if args.len() >= 5 && args[1] == "sweep" {
-        sweep(args[2].parse().unwrap(), args[3].parse().unwrap(), args[4] == "digest");
+        let alphabet: Vec<char> = match args.get(5) {
+            Some(a) => a.split(',').map(|t| char::from_u32(t.parse().unwrap()).unwrap()).collect(),
+            None => ALPHABET.to_vec(),
+        };
+        sweep(args[2].parse().unwrap(), args[3].parse().unwrap(), args[4] == "digest", &alphabet);
     } else {
         verif_harness::each_line(run_line);
     }
